@@ -61,6 +61,14 @@ Section Generic.
   Definition eps_witness (terms : list term) (theta w : list T) (box : list (T * T)) : T :=
     sadd (dot (grad (length theta) terms theta) (vsub theta w)) (eps terms w box).
 
+  (* first-order bound on f(theta) - f(w) that needs no gradient vector:
+     sum_t phi_t'(arg_t theta) * (arg_t theta - arg_t w)   ( = grad f(theta) . (theta - w) for affine arguments) *)
+  Fixpoint gapbound (terms : list term) (theta w : list T) : T :=
+    match terms with
+    | [] => 0
+    | t :: r => sadd (smul (dphi t (arg t theta)) (arg t theta - arg t w)) (gapbound r theta w)
+    end.
+
   (* executable side conditions *)
   Definition rates_posb (terms : list term) (theta : list T) : bool :=
     forallb (fun t => match t with TPois n _ _ => nltb N 0 (arg t theta) && nleb N 0 n
@@ -209,6 +217,25 @@ Proof. intros Hs Hb Hok Hbw Hokw theta Hb' Hok'.
   assert (X : dotR (grad RNum (length star) terms star) (vsub RNum w star)
             = - dotR (grad RNum (length star) terms star) (vsub RNum star w)) by (apply dot_vsub_swap; exact Hlw).
   lra. Qed.
+
+(* ---- the form the check evaluates: f(star) - f(w) bounded term by term, plus the KKT residual of the witness ---- *)
+Theorem gap_certificate terms star w :
+  Forall (fun t => term_ok t star) terms -> Forall (fun t => term_ok t w) terms ->
+  fR terms star - fR terms w <= gapbound RNum terms star w.
+Proof. induction terms as [|t r IH]; intros H H'; simpl; [lra|].
+  inversion H; subst. inversion H'; subst. specialize (IH H3 H5).
+  pose proof (phi_tangent t w star H4 H2) as T. rewrite sadd_R, smul_R. change (V RNum) with R in *.
+  change (nsub RNum) with Rminus. lra. Qed.
+
+Theorem kkt_certificate_gap terms star w box :
+  Forall (fun t => length (coefs RNum t) = length w) terms ->
+  Forall (fun t => term_ok t star) terms ->
+  in_box w box -> Forall (fun t => term_ok t w) terms ->
+  forall theta, in_box theta box -> Forall (fun t => term_ok t theta) terms ->
+  fR terms star - fR terms theta <= gapbound RNum terms star w + eps RNum terms w box.
+Proof. intros Hs Hok Hbw Hokw theta Hb Hokt.
+  pose proof (gap_certificate terms star w Hok Hokw). pose proof (kkt_certificate terms w box Hs Hbw Hokw theta Hb Hokt).
+  change (V RNum) with R in *. lra. Qed.
 
 (* non-vacuity: a two-bin, two-parameter instance where every premise holds and eps = 0 at the optimum *)
 Example kkt_certificate_nonvacuous :
